@@ -28,6 +28,10 @@ CHECKS = {
   text="Structural necessary conditions of the sub-circuit wiring: Circuit.add maps/validates its placement once and writes only full-space indices into herald maps, internal-mode list and group span; the size test is typed in one unit (user vs full counts); pass-through indices are registered as fixed points of the output-swap synthesis; all index-shifting / pop-by-index loops iterate sorted sequences (independence of herald declaration order); both spec-shifting functions rewrite every mode-bearing field of every component kind; ancilla registration is paired across the four herald maps and the internal list; groups never nest. Amplitude-level composition (correctness of the swap synthesis and of the > / >= shift predicates) is not claimed.",
   note="Trusted: component field classification table (unclassified field -> ANALYSIS-ERROR); API parameter names denote user indices; structure of add() (pass-through loop + provisional swap table) is an anchor: if it is redesigned the check reports ANALYSIS-ERROR, not a verdict.",
   tech=TECH + "qualifier dataflow with unit-typed linear forms, sortedness rule on index-shifting loops, exhaustive isinstance-dispatch coverage per component kind, pairing/sibling comparison", ref="DESIGN.md §3 R-A, R-L, R-H; §4 C02"),
+ "C04": dict(
+  text="Idiom classification of every store into a distribution in the backend / pdist code decides, for all inputs, that probability mass is only ever accumulated (marginalisation over loss modes, mixing over source inputs, zero-photon remainder), that the remainder is stored only when positive, and that the permanent and slos branches agree on padding, truncation test (strict, on abs(amp)**2, same settings attribute) and marginalisation. These are necessary conditions of 'normalised, each pattern its total probability, backend-independent'; numerical agreement and the 1e-9 budget are not claimed.",
+  note="Trusted: State/tuple/list constructors injective; fock_basis yields distinct outputs; two documented exception-table entries whose preconditions are re-derived on every run.",
+  tech=TECH + "store-idiom classification over the AST (guarded accumulate / injective re-key / rescale / get-accumulate), sibling-branch comparison", ref="DESIGN.md §3 R-G; §4 C04"),
 }
 NA = {}
 
